@@ -300,7 +300,16 @@ void addTransitFault(Gen& g, Item& op, int64_t frames)
             addFault(op, F_CORRUPT_TYPE, fr, r.pick<int64_t>({0, 1, 2, 3, 0xFF}));
             break;
         default:
-            addFault(op, F_SETFIELD, fr, FLD_MSG_PLEN, 0, r.range(0, 200));
+            if (r.chance(1, 2))
+                addFault(op, F_SETFIELD, fr, FLD_MSG_PLEN, 0, r.range(0, 200));
+            else
+            {
+                // a frame of a live endpoint whose version byte became 0 (routed to the TECMP decoder), possibly cut below
+                // the TECMP header size: it must not be parsed as a capture-module frame of that endpoint
+                addFault(op, F_SETFIELD, fr, FLD_VERSION, 0, 0);
+                if (r.chance(2, 3))
+                    addFault(op, F_TRUNC, fr, r.range(8, 40));
+            }
             break;
     }
 }
